@@ -9,7 +9,7 @@ for k in 1 2; do
   r=$(tools/confirm_mut.sh /tmp/mut/$d.out $k $name 2>&1 | grep RESULT)
   echo "$r"
   if [ -d seeded/$name ]; then
-    KEEP=$name tools/trywt.sh seeded/$name/patch.diff $prop 2>&1 | grep -a "rc=\|what\|kept" | cut -c1-260
+    VERIF_NO_REGRESS=1 KEEP=$name tools/trywt.sh seeded/$name/patch.diff $prop 2>&1 | grep -a "rc=\|what\|kept" | cut -c1-260
   fi
 done
 git -C /repo worktree remove --force /tmp/mut/$d 2>/dev/null
